@@ -6,6 +6,12 @@ ENGINES = [
     {'name': 'netsim', 'path': '/verif/engines/netsim.py', 'serves_properties': ['C18', 'C19'],
      'kind_free_text': 'seeded histories of rewiring operations / seeded flowsheets under seeded hash order and '
                        'unit-list permutations against the real thermosteam.network; invariant oracles'},
+    {'name': 'sparsesim', 'path': '/verif/engines/sparsesim.py', 'serves_properties': ['C09'],
+     'kind_free_text': 'seeded histories of construction / indexing / arithmetic / in-place / reduction / '
+                       'conversion operations on a universe of aliasing sparse objects against NumPy mirror '
+                       'arrays; refinement oracle on every live object after every step, representation '
+                       'invariant, must-reject events (read-only, shape mismatch), differential judgement of '
+                       'exceptions on freshly built objects'},
 ]
 
 NOT_APPLICABLE = {
@@ -21,13 +27,29 @@ NOT_APPLICABLE = {
 }
 
 PENDING = {p: 'not claimed yet: simulator engine for this property is still under construction (see DESIGN.md)'
-           for p in ['C01', 'C02', 'C03', 'C04', 'C05', 'C08', 'C09', 'C10', 'C11', 'C12', 'C13', 'C14',
+           for p in ['C01', 'C02', 'C03', 'C04', 'C05', 'C08', 'C10', 'C11', 'C12', 'C13', 'C14',
                      'C15', 'C20']}
 
 _COMMON_NOTE = ('trusted base: the in-harness oracle and reference computations, CPython, NumPy; seeded search '
                 'over histories/faults - a clean batch is evidence, not proof')
 
 TEXT = {
+    'C09': {
+        'level': 'seeded exploration of operation histories (<= 30 steps) over a universe of 3-8 live sparse '
+                 'vectors, logical vectors and 2-d arrays (shapes <= 3 x 6, value alphabet with 0, a, -a, 1/4, 3, '
+                 '1e-300, 1e300, booleans) including aliasing rows, self-operands (a += a, a[:] = a, '
+                 'a.mix_from([a, b, a])), length-1 broadcasts, every operator and every pairing of operand kinds; '
+                 'after every step the dense image of EVERY live object is compared with its NumPy mirror, the '
+                 'result with NumPy, and the representation invariant (no stored zero, keys in range) is '
+                 'evaluated; read-only writes and shape mismatches must raise and change nothing. Right level '
+                 'because the objects are mutable, alias each other and every in-place kernel has to '
+                 're-establish the invariant: failures need a history, not a single call.',
+        'design_ref': '5/C09', 'note': _COMMON_NOTE + '; forms the library\'s own tests do not exercise are '
+                 'outside the generated domain (listed in the evidence assumptions); the exhaustive-for-size-3 '
+                 'clause of the property is sampled, not enumerated',
+        'technique': 'deterministic simulation: seeded operation histories on aliasing objects + NumPy refinement '
+                     'oracle per step + must-reject fault events + ddmin replay',
+    },
     'C18': {
         'level': 'seeded exploration of rewiring histories (all listed operations, each used inside its stated '
                  'precondition) on stub units with fixed and variable port counts; the connection invariant is '
@@ -47,3 +69,61 @@ TEXT = {
         'technique': 'deterministic simulation: seeded hash-order / permutation injection + order oracle',
     },
 }
+
+_STREAM_NOTE = _COMMON_NOTE + ('; operations that raise on fresh objects in the same state are counted as unsupported '
+                               'input, not violations (differential-exception rule, DESIGN 2.4)')
+TEXT.update({
+    'C01': {
+        'level': 'seeded exploration of histories of mix / sum / split / separate / copy_flow / scale / += / -= on '
+                 'shared, aged, linked and proxied streams over three property packages (reordered chemicals, CAS '
+                 'remapping through the shared, evicting lookup cache), with cache pressure, pickled restarts and '
+                 'injected model/solver failures inside energy-balanced mixes; per-operation dense refinement oracle '
+                 'computed from a pre-operation snapshot.',
+        'design_ref': '5/C01', 'note': _STREAM_NOTE,
+        'technique': 'deterministic simulation: seeded task interleavings + fault injection + dense refinement oracle',
+    },
+    'C10': {
+        'level': 'seeded exploration of lookup histories (every key form, 0-700 distinct keys so that the 100-entry '
+                 'and 500-entry caches fill and evict, cross-package insertions into the same cache, restarts); '
+                 'every read/write is compared with the harness own name->position table and with a cold twin '
+                 'indexer (history independence).',
+        'design_ref': '5/C10', 'note': _STREAM_NOTE,
+        'technique': 'deterministic simulation: cache-pressure histories + reference table + fresh-twin oracle',
+    },
+    'C11': {
+        'level': 'seeded exploration of interleavings of view writes/reads (mol/mass/vol, 9 units of measure) with '
+                 'T, P, phase(s), link/unlink, proxy, copy_like, restart; after every step mass = mol*MW, vol = '
+                 'mol*1000*V_i(phase,T,P) (V_i from the Chemical objects directly) and the totals are checked on '
+                 'every touched stream and every stream that may share data with it.',
+        'design_ref': '5/C11', 'note': _STREAM_NOTE,
+        'technique': 'deterministic simulation: seeded task interleavings + per-step invariant oracle',
+    },
+    'C12': {
+        'level': 'seeded exploration of conversion histories (phases=, reduce_phases, as_stream, solver accessors, '
+                 'get_data/set_data, writes through re-obtained phase views and through the parent) interleaved with '
+                 'other mutators; totals, T, P, per-label rows and view liveness checked after each conversion.',
+        'design_ref': '5/C12', 'note': _STREAM_NOTE,
+        'technique': 'deterministic simulation: seeded histories + snapshot refinement oracle',
+    },
+    'C13': {
+        'level': 'seeded exploration of copy/proxy/flow_proxy/link_with (all flag subsets)/unlink/pickle histories '
+                 'with mutations by other owners in between; refinement against an explicit alias graph (who '
+                 'shares flows, T/P, phase with whom): after every operation every stream outside the sharing '
+                 'closure of the written streams is unchanged and everything advertised as shared is equal.',
+        'design_ref': '5/C13', 'note': _STREAM_NOTE + '; re-linking a stream that is bound to a proxy is not generated',
+        'technique': 'deterministic simulation: two-owner histories + alias-graph refinement oracle',
+    },
+    'C14': {
+        'level': 'seeded exploration of interleavings (<= 50 steps) of property reads with every public mutator, by '
+                 'several owners of shared streams (multi-step revisit tasks return a stream to an earlier state); '
+                 'every read is compared with a freshly built stream in the same observable state.',
+        'design_ref': '5/C14', 'note': _STREAM_NOTE,
+        'technique': 'deterministic simulation: seeded task interleavings + fresh-twin oracle',
+    },
+})
+for _p in ('C01', 'C10', 'C11', 'C12', 'C13', 'C14'):
+    PENDING.pop(_p, None)
+ENGINES.append({'name': 'streamsim', 'path': '/verif/engines/streamsim.py',
+                'serves_properties': ['C01', 'C10', 'C11', 'C12', 'C13', 'C14'],
+                'kind_free_text': 'seeded histories of public-API calls by stub unit operations on shared real streams, '
+                                  'with model/solver fault injection, cache pressure and pickled restarts'})
